@@ -18,9 +18,12 @@ type Damage struct {
 
 // Layout records where each file block landed in the byte stream.
 type Layout struct {
-	HeaderEnd int64   // end offset of the header block (0 when there is none)
-	Start     []int64 // start offset of data block i
-	End       []int64 // end offset of data block i
+	HeaderEnd int64 // end offset of the header block (0 when there is none)
+	// HeaderPrefixEnd / HeaderBlobHeaderEnd: as PrefixEnd / BlobHeaderEnd, for the header block
+	HeaderPrefixEnd     int64
+	HeaderBlobHeaderEnd int64
+	Start               []int64 // start offset of data block i
+	End                 []int64 // end offset of data block i
 	// PrefixEnd / BlobHeaderEnd: offsets just after the 4-byte size prefix and just after
 	// the BlobHeader of data block i (the cut points the decoder handles separately).
 	PrefixEnd     []int64
@@ -222,14 +225,16 @@ func (b *Block) EncodePrimitiveBlock(dmg Damage) []byte {
 	oobIdx := uint64(len(st.list)) + uint64(dmg.Arg)
 
 	var fs []field
-	// string table
-	fs = append(fs, field{func(e *enc) {
-		var t enc
-		for _, s := range st.list {
-			t.str(1, s)
-		}
-		e.bytes(1, t.b)
-	}})
+	// string table (a required field: leaving it out makes every string reference dangle)
+	if dmg.Kind != "missing-stringtable" {
+		fs = append(fs, field{func(e *enc) {
+			var t enc
+			for _, s := range st.list {
+				t.str(1, s)
+			}
+			e.bytes(1, t.b)
+		}})
+	}
 	if b.Granularity != nil {
 		fs = append(fs, field{func(e *enc) { e.varint(17, uint64(int64(*b.Granularity))) }})
 	}
@@ -661,7 +666,8 @@ func (f *File) Encode(dmg map[int]Damage) ([]byte, *Layout) {
 			hc.Required = append(append([]string{}, h.Required...), "FutureFeature-V9")
 			h = &hc
 		}
-		fb, _, _ := EncodeFileBlock("OSMHeader", h.EncodeHeaderBlock(), h.Zlib, 0, false, d)
+		fb, pe, he := EncodeFileBlock("OSMHeader", h.EncodeHeaderBlock(), h.Zlib, 0, false, d)
+		lay.HeaderPrefixEnd, lay.HeaderBlobHeaderEnd = int64(pe), int64(he)
 		out = append(out, fb...)
 		lay.HeaderEnd = int64(len(out))
 	}
